@@ -8,8 +8,11 @@ import (
 	"io"
 	"regexp"
 	"runtime"
+	"runtime/debug"
+	"runtime/metrics"
 	"sort"
 	"strings"
+	"sync/atomic"
 	"time"
 
 	"seehuhn.de/go/membudget"
@@ -27,6 +30,7 @@ type xcase struct {
 	body  []byte
 	objs  map[pdf.Reference]pdf.Native // what the Getter serves; everything else is missing (null)
 	plain bool                         // the unmutated seed (trivial case)
+	tag   string                       // state class of a generated body (part of hang / crash fingerprints)
 }
 
 // getter is the minimal pdf.Getter: a version and a handful of objects.
@@ -55,6 +59,12 @@ type obs struct {
 	panicAt  string
 	leaked   int
 	leakSig  string
+
+	// second stage of the allocation oracle (only when the cumulative figure
+	// exceeds the allowance): the peak of the live heap, see peakLive
+	liveMeasured bool
+	livePeak     uint64
+	liveCycles   uint32
 }
 
 const (
@@ -173,6 +183,9 @@ func (x *xcase) run() (o obs) {
 		}
 		rc, err = pdf.DecodeStream(g, nil, pdf.NewStream(d, x.body))
 	}
+	if probeHook != nil {
+		probeHook()
+	}
 	if err != nil {
 		o.stage, o.err = "open", err
 		o.alloc = totalAlloc() - a0
@@ -217,9 +230,94 @@ func (x *xcase) run() (o obs) {
 			}
 		}
 	}
+	if probeHook != nil {
+		probeHook()
+	}
 	o.closeErr = rc.Close()
 	o.alloc = totalAlloc() - a0
 	return o
+}
+
+// ---------------------------------------------------------------------------
+// peak of the live heap
+
+// probeHook, if set, is called by run when the decoder has been built and
+// again before it is closed (everything the chain holds is still reachable).
+var probeHook func()
+
+var liveSample = []metrics.Sample{{Name: "/gc/heap/live:bytes"}, {Name: "/gc/cycles/total:gc-cycles"}}
+
+// heapLive returns the bytes the most recent garbage collection found
+// reachable, and the number of collections so far.
+func heapLive() (uint64, uint64) {
+	metrics.Read(liveSample)
+	if liveSample[0].Value.Kind() != metrics.KindUint64 || liveSample[1].Value.Kind() != metrics.KindUint64 {
+		return 0, 0
+	}
+	return liveSample[0].Value.Uint64(), liveSample[1].Value.Uint64()
+}
+
+// peakLive re-runs the case and returns by how much the LIVE heap grew at its
+// peak. TotalAlloc is cumulative: a decoder that reads its input into a
+// buffer which it grows geometrically up to the budget allocates about five
+// times the budget in total while never holding more than 2.25 budgets. So a
+// cumulative figure above the allowance only makes a case a suspect; it is
+// decided here. The collector is set to start a cycle after every 10 % of
+// growth, a second P samples "bytes found reachable by the last cycle" while
+// the case runs, and a collection is forced when the decoder has been built
+// and before it is closed. Every sample is a heap that really was reachable
+// (plus what was allocated during one mark phase), so the result errs on the
+// library's side.
+func (x *xcase) peakLive() (growth uint64, cycles uint32) {
+	oldGC := debug.SetGCPercent(10)
+	oldP := runtime.GOMAXPROCS(2)
+	defer func() {
+		probeHook = nil
+		runtime.GOMAXPROCS(oldP)
+		debug.SetGCPercent(oldGC)
+	}()
+	runtime.GC()
+	runtime.GC()
+	base, c0 := heapLive()
+	var peak atomic.Uint64
+	note := func() {
+		if v, _ := heapLive(); v > peak.Load() {
+			peak.Store(v)
+		}
+	}
+	stop, done := make(chan struct{}), make(chan struct{})
+	go func() {
+		defer close(done)
+		var last uint64
+		for {
+			select {
+			case <-stop:
+				return
+			default:
+			}
+			if _, c := heapLive(); c != last {
+				last = c
+				note()
+			}
+			time.Sleep(20 * time.Microsecond)
+		}
+	}()
+	probeHook = func() {
+		runtime.GC()
+		note()
+	}
+	func() {
+		defer func() { recover() }()
+		x.run()
+	}()
+	close(stop)
+	<-done
+	note()
+	_, c1 := heapLive()
+	if p := peak.Load(); p > base {
+		growth = p - base
+	}
+	return growth, uint32(c1 - c0)
 }
 
 var reFrame = regexp.MustCompile(`(?m)^(\S+)\(.*\)\n\t\S+/([^/\s]+:\d+)`)
